@@ -6,5 +6,6 @@ cd "$(dirname "$0")"
 export MEASURED_REPO=${MEASURED_REPO:-/repo}
 /venv/bin/python translate/gen_init.py
 /venv/bin/python translate/gen_grammar.py
+/venv/bin/python translate/gen_sizes.py
 cd lean
 lake build Model Proofs Props Obligations driver 2>&1 | grep -v '^trace' | tail -5
